@@ -740,7 +740,7 @@ def run_spec(args: dict, sandbox: str) -> dict:
         printed = (fres.get("stdout") or "") + (fres.get("stderr") or "")
         for d in diags:
             h = (d["header"] or "").strip()
-            if h and h not in printed:
+            if h and "".join(h.split()) not in "".join(printed.split()):
                 viol("diagnostic-not-printed", d["level"], f"diagnostic {h!r} was returned by generate() but is missing from what the command printed")
                 break
         if errors or (fres["exit_code"] != 0) != bool(hook_errors):
